@@ -18,7 +18,7 @@ def _trees(depth, keys=('a', 'b', 'c'), width=2):
   for n in range(1, width + 1):
     for ks in itertools.combinations(keys, n):
       # bound the product: at depth 3 only use a reduced sub-universe
-      pool = sub if depth < 3 else sub[::7] + [{}]
+      pool = sub if depth < 3 else sub[::97] + [{}]
       for vs in itertools.product(pool, repeat=n):
         out.append(dict(zip(ks, vs)))
   return out
